@@ -52,7 +52,9 @@ class CtorEval:
     def ev(self, node, env):
         if isinstance(node, ast.Constant) and isinstance(
                 node.value, (int, float)):
-            return sp.nsimplify(node.value)
+            v_ = node.value
+            return sp.Integer(v_) if isinstance(v_, int) else \
+                sp.Rational(str(v_))
         if isinstance(node, ast.Name):
             if node.id in env:
                 return env[node.id]
@@ -222,7 +224,7 @@ def integrate_cube(poly, dims):
     e = sp.expand(poly)
     for k in range(dims):
         e = sp.integrate(e, (U[k], 0, 1))
-    return sp.nsimplify(e)
+    return sp.simplify(e)
 
 
 def monomials(dims, maxdeg):
@@ -304,7 +306,7 @@ def check_duffy(prog, report, cls, base_param, dims, flags_list, maxdeg,
             for e in exps:
                 exact = exact / (e + 1)
             nmom += 1
-            if sp.nsimplify(total - exact) != 0:
+            if sp.simplify(total - exact) != 0:
                 nbad += 1
                 if first_bad is None:
                     first_bad = (exps, total, exact)
